@@ -5,7 +5,7 @@ import random
 
 import vlib
 
-PROPS = ("C01", "C02", "C04", "C11", "C13", "C14")
+PROPS = ("C01", "C02", "C03", "C04", "C11", "C13", "C14")
 
 _COMMON_NOTE = ("symbolic blobs/metadata/tag sets are concretised by harness/pdrv (one representative each); "
                 "SQLite metadata store only; TLC, the Go toolchain and SQLite are trusted; ETag values are checked by "
@@ -43,6 +43,19 @@ CHECKS["C14"] = {
             "physically present there (read from the parts table, the store directories and part_contents).",
     "note": _COMMON_NOTE + "; remapping the class->store configuration between restarts is not exercised", "technique": _TECH}
 
+CHECKS["C03"] = {
+    "category": "fault_enumeration",
+    "text": "Validation errors: every error branch of the Pithos model is an UNCHANGED step (action property FailedOpIsStutter, "
+            "proved by TLC) and trace validation requires the full projection of all buckets to be unchanged after every call "
+            "that returned an error. Injected faults: for every call of the generated programs the harness first replays the "
+            "call with a request body that breaks off half way, then with an error injected at the 1st, 2nd, ... k-th fault "
+            "point of its write transaction (each pre-commit hook and the SQL COMMIT, hook points in database/tx.go) until "
+            "the call passes fewer points; every faulted attempt must return an error and leave the projection (versions "
+            "read back by id, tags, uploads+parts, listings) unchanged; then the call runs for real and is validated.",
+    "note": _COMMON_NOTE + "; faults are injected at transaction hook points and in the request body, not inside the part "
+            "stores' own I/O; after-commit hook failures are not injected",
+    "technique": "TLA+ reference model + TLC action property; fault enumeration at hook points on real code; TLC trace validation"}
+
 ALL_OPS = ["CreateBucket", "DeleteBucket", "PutVersioning", "PutObject", "GetObject", "DeleteObject", "CopyObject",
            "AppendObject", "CreateUpload", "UploadPart", "UploadPartCopy", "CompleteUpload", "AbortUpload", "PutTagging",
            "Transition"]
@@ -56,6 +69,8 @@ PLAN = {
                     "TagSets": '{"none", "g1"}', "Classes": '{"none"}', "MaxParts": "2"},
             "ops": ["CreateBucket", "PutVersioning", "PutObject", "GetObject", "DeleteObject", "CopyObject", "AppendObject",
                     "CreateUpload", "UploadPart", "CompleteUpload"]},
+    "C03": {"stacks_quick": ["fs"], "stacks_thorough": ["fs", "sql", "classes", "ec21", "outbox-fs"], "faults": 4,
+            "ops": ALL_OPS},
     "C04": {"stacks_quick": ["fs"], "stacks_thorough": ["fs", "sql", "fs-tink"],
             "ops": ["CreateBucket", "PutVersioning", "PutObject", "DeleteObject", "CopyObject", "AppendObject", "CreateUpload",
                     "UploadPart", "UploadPartCopy", "CompleteUpload"]},
@@ -138,6 +153,10 @@ def validate(ctx, trace_file, deviations):
     diags = [d for d in r.printed if isinstance(d, dict) and "what" in d]
     etags = [d for d in r.printed if isinstance(d, dict) and "etags" in d]
     return max(r.depth - 1, 0), n, diags, (etags[-1]["etags"] if etags else None), r
+
+
+def _c03_nprog(ctx):
+    return ctx.pick(15, 120)
 
 
 def split_programs(lines):
@@ -263,7 +282,7 @@ def run(ctx):
         else:
             ctx.mc("PithosMC", "Pithos.MCver.cfg", timeout=1500, subst={"MaxClock": ctx.pick("6", "8")})
     # 2. program generation from the model
-    nprog = ctx.pick(40, 400)
+    nprog = ctx.pick(40, 400) if ctx.prop != "C03" else _c03_nprog(ctx)
     depth = ctx.pick(25, 40)
     stacks = plan["stacks_quick"] if ctx.quick() else plan["stacks_thorough"]
     drv = ctx.gobuild("pithosdrv")
@@ -274,7 +293,8 @@ def run(ctx):
         pf = ctx.path("programs-%s.ndjson" % stack)
         vlib.write_ndjson(pf, [{"id": i + 1, "calls": p} for i, p in enumerate(progs)])
         tf = ctx.path("trace-%s.ndjson" % stack)
-        p = ctx.run([drv, "run", stack, ctx.path("state-" + stack), pf, tf], timeout=3000)
+        env = {"VERIF_FAULTS": str(plan["faults"])} if plan.get("faults") else None
+        p = ctx.run([drv, "run", stack, ctx.path("state-" + stack), pf, tf], timeout=3000, env=env)
         ctx.log(stack, p.stdout.strip().splitlines()[-1])
         for pr in progs:
             for c in pr:
@@ -297,6 +317,18 @@ def run(ctx):
         ctx.traces += len(wit)
         ctx.extra["witness_programs"] = [{"tag": t, "program": p} for t, p in wit][:6]
         ctx.extra["witness_reproduced"] = {t: ctx.findings_seen.get(t, 0) - before.get(t, 0) > 0 for t, _ in wit}
+    if plan.get("faults"):
+        nf = {}
+        for stack in stacks:
+            for ln in vlib.read_ndjson(ctx.path("trace-%s.ndjson" % stack)):
+                if ln.get("fault", "none") != "none":
+                    key = ln["call"]["op"] + ":" + ln["fault"]
+                    nf[key] = nf.get(key, 0) + 1
+        ctx.extra["faulted_attempts_by_op_and_point"] = nf
+        ctx.extra["faulted_attempts"] = sum(nf.values())
+        if sum(nf.values()) < 20:
+            raise vlib.Infra("fault enumeration produced only %d faulted attempts" % sum(nf.values()))
+        ctx.level = "fault_enumeration"
     ctx.extra["distinct_nontrivial"] = ctx.traces
     ctx.extra["calls_by_op"] = opcount
     ctx.extra["etag_terms_recomputed"] = nterms
